@@ -7,7 +7,8 @@ from its current suspension point to its next one — one `coro.send` of the han
 The suspension points are exactly those of the code: inside `lock.__aenter__` (lock held by
 another child), inside `iterator.__anext__()` (as often as the source's script says), and the
 consumer's own point between two items.  `Op.close i` is `child.aclose()`, `Op.cancel i` throws a
-cancellation into task `i` at its current suspension point, `Op.closeAll` is `Tee.aclose()`.
+cancellation into task `i` at its current suspension point, `Op.closeAll` is `Tee.aclose()` (close every child in order, then
+unregister the buffers of children that were never started and close the source for them).
 
 Every `def` names the Python it follows.  No proofs here: the file is compiled into the driver.
 -/
@@ -202,7 +203,8 @@ def cancel (s : St) (i : Nat) : St × Out :=
     | _ => (s.setKid i { (s.kid i) with task := .cancelled }, .cancelled)
   | _ => (s, .noop)
 
-/-- `Tee.aclose`: `for child in self._children: await child.aclose()` -/
+/-- the loop of `Tee.aclose`: `for child in self._children: await child.aclose()`
+    (a RuntimeError of a child's `aclose()` leaves the loop and `Tee.aclose`) -/
 def closeFrom (s : St) : List Nat → St × Out
   | [] => (s, .closed)
   | i :: rest =>
@@ -210,11 +212,29 @@ def closeFrom (s : St) : List Nat → St × Out
     | (s', .busy) => (s', .busy)
     | (s', _) => closeFrom s' rest
 
+/-- the end of `Tee.aclose`:
+    `if self._buffers: self._buffers.clear(); if isinstance(self._iterator, ACloseable): await self._iterator.aclose()`
+    — buffers still registered here belong to children that were closed before their first step
+    (their `finally` never ran); all of them are unregistered and the source is closed on their
+    behalf (same bookkeeping as the last peer in `finishKid`) -/
+def clearBuffers (s : St) : St :=
+  if s.kids.any (fun c => c.buf.isSome) then
+    let s := { s with kids := s.kids.map fun (c : Child) => { c with buf := none } }
+    if s.closeable then { s with srcCloses := s.srcCloses + 1 } else s
+  else s
+
+/-- `Tee.aclose`: close every child in order; if none of them was busy, unregister what is left -/
+def closeAll (s : St) : St × Out :=
+  let r := closeFrom s (List.range s.kids.length)
+  match r.2 with
+  | .busy => r
+  | o => (clearBuffers r.1, o)
+
 def step (s : St) : Op → St × Out
   | .sched i => if i < s.kids.length then sched s i else (s, .noop)
   | .close i => if i < s.kids.length then closeKid s i else (s, .noop)
   | .cancel i => if i < s.kids.length then cancel s i else (s, .noop)
-  | .closeAll => closeFrom s (List.range s.kids.length)
+  | .closeAll => closeAll s
 
 def runOps (s : St) : List Op → St
   | [] => s
